@@ -30,7 +30,7 @@ CHECKS = {
     "C04": ("exploration",
             "Hypothesis-generated list programs and edit/call histories; reference solution set enumerated over sizes 0..4 x element values; access-path agreement checks",
             "Fixed-size, random-size and non-random scalar lists with size bounds, foreach by item/index/both/nested, guarded index arithmetic, sum, unique, unique_vec, membership and constant subscripts; histories interleave calls with append/extend/clear/assign/setitem. After every successful call (size, elements) must lie in the enumerated set, len()/size/indexing/iteration must agree, fixed lists keep their length, and edits must act on exactly the exposed list.",
-            "Random-size lists whose elements are constrained are a recorded finding (the library solves over the grown list); after a failed call only the list's length is judged. Lists beyond the enumerable bound (3-10 elements of 4-32 bits) are judged by a solution-first family: every returned state against the reference, pinned perturbations of a hidden solution both ways.",
+            "Random-size lists whose elements are constrained (foreach, sum, product, unique, membership) are judged like all others since the repair of the former finding c04-randsz-size-before-elements; after a failed call only the list's length is judged. Lists beyond the enumerable bound (3-10 elements of 4-32 bits) are judged by a solution-first family: every returned state against the reference, pinned perturbations of a hidden solution both ways.",
             "5/C04"),
     "C05": ("exploration",
             "Hypothesis-generated hard+soft programs; exact greedy-by-priority reference and result-only maximality over the enumerated solution space",
